@@ -15,6 +15,7 @@ VERDICT_MSGS = [
     ("invariant not satisfied before loop", "inv-init"),
     ("invariant not satisfied at end of loop body", "inv-step"),
     ("loop invariant not preserved", "inv-step"),
+    ("loop invariant not satisfied", "inv-exit"),  # at a `break`: the loop's `ensures` / invariant at that exit
     ("decreases not satisfied", "decreases"),
     ("could not prove termination", "decreases"),
     ("unreachable", "unreachable"),
